@@ -503,6 +503,13 @@ def call_value_method(eng, base, name, args, kwargs, line, fr):
                 eng.spec.note_write(eng, owner, fname, line)
                 eng.write_field(base.t, owner, fname, fs, bm.absent_value(fs))
             return NONE_V
+        if name == "update" and not args:
+            # d.update(k1=v1, k2=v2, ..): the item stores d["k1"] = v1; d["k2"] = v2; .. in keyword order (a typed dict: struct)
+            from . import builtins2 as b2
+
+            for kname, v in kwargs.items():
+                b2.set_item(eng, base, bm.const_value(kname), v, line)
+            return NONE_V
     if s == REAL:
         if name == "quantize":
             # Decimal.quantize(Decimal-with-exponent-0, ROUND_HALF_UP): round half away from zero to an integer
